@@ -79,6 +79,7 @@ def value_core():
     two = ['a\n', '\nb', 'a\nb', ' a', 'a ', 'a\r', 'a\x85b', 'a\u2028b', 'é\n', 'a\tb', '\ta', 'a: b', '- a', '# a', "a'b", 'a"b', 'a\\b',
            'aaa bbb ccc ddd eee', 'aaa\nbbb\n\nccc\n', '  x\n y\n', 'x\n\n', '\U0001F600\ufeff', '\ufffe', 'a\x07b', 'yes', '1', '~', '<<', '1:30']
     out += [('str:' + repr(s), (lambda s=s: s)) for s in two]
+    out += [('bnd:' + repr(s), (lambda s=s: [s, 'a' + s + 'b', {s + 'k': s}])) for s in U.BOUNDARY]
     out += [('str-in:' + repr(s), (lambda s=s: {'k': [s, {s: s}], 'j': {'n': [[s]]}})) for s in ['x', 'a\nb', 'é', ' lead', 'aaa bbb ccc ddd', '', 'k' * 130]]
     out += [('leaf:%d' % i, (lambda v=v: v)) for i, v in enumerate(U.LEAVES[:31])]
     out += [('leaves-list', lambda: list(U.LEAVES)), ('keys', lambda: {k: i for i, k in enumerate(U.KEYABLE)}), ('set', lambda: set(U.KEYABLE[:8])),
